@@ -378,8 +378,25 @@ func checkClusterNodesParser(c *Ctx, rule string) {
 			}, 2)
 			// a helper that is handed the column: its string parameter
 			if !fromLine {
-				if prm, isPrm := call.Call.Args[0].(*ssa.Parameter); isPrm && pf != fn && pf != host {
-					fromLine = isStringVal(prm)
+				// a helper that is handed one of the fixed columns (not a slot segment, where "[" and "-" are syntax)
+				if prm, isPrm := call.Call.Args[0].(*ssa.Parameter); isPrm && pf != fn && pf != host && isStringVal(prm) {
+					idx := paramIndex(pf, prm)
+					for _, ed := range p.callersOf(pf) {
+						args := ed.Site.Common().Args
+						if idx < 0 || idx >= len(args) || p.isTestFn(ed.Caller.Func) {
+							continue
+						}
+						if derivesIP(args[idx], func(v ssa.Value) bool {
+							ia, ok := v.(*ssa.IndexAddr)
+							if !ok || ia.X != fields {
+								return false
+							}
+							k, isC := constInt(ia.Index)
+							return isC && k < 8
+						}, 2) {
+							fromLine = true
+						}
+					}
 				}
 			}
 			if fromLine {
